@@ -53,6 +53,41 @@ template <class T> static ll relations (const Frustum<T>& g, const std::string& 
     }
     if (!(M[0][1] == 0 && M[0][2] == 0 && M[0][3] == 0 && M[1][0] == 0 && M[1][2] == 0 && M[1][3] == 0 && M[2][3] == (F.ortho ? 0 : -1) && M[3][3] == (F.ortho ? 1 : 0)))
         R ().fail (S0 + "projectionMatrix.layout", in + " -> " + F.str (), F.ortho ? "orthographic layout" : "perspective layout", "different");
+    // the throwing spellings of the accessors (separate copies of the code; on a non-degenerate frustum they must not throw and
+    // are the same documented quantities, so they are held to the same bounds): sites "...Exc..."
+    try
+    {
+        const Matrix44<T> ME = g.projectionMatrixExc ();
+        for (int c = 0; c < 8; ++c)
+        {
+            L3 want = {(c == 0 || c == 1 || c == 4 || c == 5) ? -1.0L : 1.0L, (c == 0 || c == 3 || c == 4 || c == 7) ? -1.0L : 1.0L, c < 4 ? -1.0L : 1.0L};
+            L3 got  = xform2 (ME, I.cor[c]);
+            ++k_t;
+            if (!(fabsl (got.x - want.x) <= 16 * e * kx && fabsl (got.y - want.y) <= 16 * e * ky && fabsl (got.z - want.z) <= 16 * e * kz))
+                R ().fail (S0 + "projectionMatrixExc.corners-to-cube", in + " -> " + F.str () + " corner " + s (I.cor[c]), s (want), s (got));
+        }
+        if (!(ME[0][1] == 0 && ME[0][2] == 0 && ME[0][3] == 0 && ME[1][0] == 0 && ME[1][2] == 0 && ME[1][3] == 0 && ME[2][3] == (F.ortho ? 0 : -1) && ME[3][3] == (F.ortho ? 1 : 0)))
+            R ().fail (S0 + "projectionMatrixExc.layout", in + " -> " + F.str (), F.ortho ? "orthographic layout" : "perspective layout", "different");
+        for (int zi = 0; zi < 2; ++zi)
+        {
+            const T d = g.normalizedZToDepthExc ((T) zi);
+            const LD wd = zi ? -f : -n, tol = F.ortho ? 8 * e * f : 8 * e * (f / n) * fabsl (wd);
+            ++k_t;
+            if (!(fabsl ((LD) d - wd) <= tol)) R ().fail (S0 + "normalizedZToDepthExc.clipping-plane", in + " -> " + F.str () + " zval=" + std::to_string (zi), s (wd), fmt (d));
+        }
+        for (int c = 0; c < 8; ++c)
+        {
+            const Vec3<T> p = toV<T> (I.cor[c]);
+            const Vec2<T> sc = g.projectPointToScreenExc (p);
+            const LD wx = (c == 0 || c == 1 || c == 4 || c == 5) ? -1 : 1, wy = (c == 0 || c == 3 || c == 4 || c == 7) ? -1 : 1;
+            ++k_t;
+            if (!(fabsl ((LD) sc.x - wx) <= 24 * e * kx && fabsl ((LD) sc.y - wy) <= 24 * e * ky)) R ().fail (S0 + "projectPointToScreenExc.corner", in + " -> " + F.str () + " p=" + s (p), "(" + s (wx) + "," + s (wy) + ")", "(" + fmt (sc.x) + "," + fmt (sc.y) + ")");
+        }
+        const LD wa = (r - l) / (t - b);
+        ++k_t;
+        if (!(fabsl ((LD) g.aspectExc () - wa) <= 4 * e * wa)) R ().fail (S0 + "aspectExc", in + " -> " + F.str (), s (wa), fmt (g.aspectExc ()));
+    }
+    catch (...) { R ().fail (S0 + "Exc-accessor.threw-on-non-degenerate-frustum", in + " -> " + F.str (), "no exception", "exception"); }
     // planes()
     Plane3<T> P[6];
     g.planes (P);
@@ -119,10 +154,10 @@ template <class T> static void history ()
     const auto FS = frusta ();
     std::string st = std::string ("frustum-history.") + tname<T> ();
     if (!R ().stage (st)) return;
-    std::atomic<ll> c_hist (0), c_flip_o (0), c_flip_p (0), c_mod (0), c_win (0), c_fov_o (0), c_fov_p (0), c_chain (0), trans (0);
+    std::atomic<ll> c_hist (0), c_flip_o (0), c_flip_p (0), c_mod (0), c_win (0), c_fov_o (0), c_fov_p (0), c_exc_o (0), c_exc_p (0), c_chain (0), trans (0);
     const LD pi = 3.14159265358979323846264338327950288L;
     bool ok = parallel_chunks (FS.size (), 16, [&] (uint64_t lo, uint64_t hi, unsigned) {
-        ll k_h = 0, k_fo = 0, k_fp = 0, k_m = 0, k_w = 0, k_vo = 0, k_vp = 0, k_c = 0, k_t = 0;
+        ll k_h = 0, k_fo = 0, k_fp = 0, k_m = 0, k_w = 0, k_vo = 0, k_vp = 0, k_xo = 0, k_xp = 0, k_c = 0, k_t = 0;
         for (uint64_t fi = lo; fi < hi; ++fi)
         {
             const FSpec& F = FS[fi];
@@ -173,16 +208,27 @@ template <class T> static void history ()
                 else k_t += relations (g, "window", in);
             }
             // ---- set(near, far, fovx, fovy, aspect) applied to an EXISTING frustum of either kind: the result is perspective
+            // Both spellings: set(...) and the throwing form setExc(...) (a separate copy of the code; it throws only when fovx and
+            // fovy are both non-zero, which is never the case here), each on both starting kinds, and (start 1) after the kind was
+            // flipped with setOrthographic first. "Set functions change the entire state of the Frustum" (ImathFrustum.h).
+            for (int start = 0; start < 2; ++start)
+            for (int spell = 0; spell < 2; ++spell)
             for (int mode = 0; mode < 2; ++mode)
             {
                 Frustum<T> g = fr; const T nn = (T) (2 * n), ff = (T) (16 * n), phi = (T) (pi / 3), a = (T) (4.0L / 3);
-                if (mode == 0) g.set (nn, ff, phi, (T) 0, a); else g.set (nn, ff, (T) 0, phi, a);
-                const std::string in = in0 + " .set(near=" + fmt (nn) + ", far=" + fmt (ff) + (mode == 0 ? ", fovx=" : ", fovx=0, fovy=") + fmt (phi) + (mode == 0 ? ", fovy=0" : "") + ", aspect=" + fmt (a) + ")";
-                ++k_h; (F.ortho ? k_vo : k_vp)++;
+                if (start == 1) g.setOrthographic (!F.ortho);
+                const bool was_ortho = start == 1 ? !F.ortho : F.ortho;
+                const std::string SP = spell ? "setExc" : "set";
+                bool threw = false;
+                if (spell == 0) { if (mode == 0) g.set (nn, ff, phi, (T) 0, a); else g.set (nn, ff, (T) 0, phi, a); }
+                else { try { if (mode == 0) g.setExc (nn, ff, phi, (T) 0, a); else g.setExc (nn, ff, (T) 0, phi, a); } catch (...) { threw = true; } }
+                const std::string in = in0 + (start == 1 ? std::string (" .setOrthographic(") + (F.ortho ? "false" : "true") + ")" : std::string ()) + " ." + SP + "(near=" + fmt (nn) + ", far=" + fmt (ff) + (mode == 0 ? ", fovx=" : ", fovx=0, fovy=") + fmt (phi) + (mode == 0 ? ", fovy=0" : "") + ", aspect=" + fmt (a) + ")";
+                ++k_h; (spell ? (was_ortho ? k_xo : k_xp) : (was_ortho ? k_vo : k_vp))++;
+                if (threw) { R ().fail ("Frustum::setExc(fov).threw-on-valid-arguments", in, "no exception (only one of fovx/fovy is non-zero)", "exception"); continue; }
                 const LD tn = tanl ((LD) phi / 2), wr_ = mode == 0 ? 2 * n * tn : 2 * n * tn * (LD) a, wt_ = mode == 0 ? 2 * n * tn / (LD) a : 2 * n * tn;
                 if (!(g.nearPlane () == nn && g.farPlane () == ff && !g.orthographic () && g.left () == -g.right () && g.bottom () == -g.top () && fabsl ((LD) g.right () - wr_) <= 8 * e * wr_ && fabsl ((LD) g.top () - wt_) <= 8 * e * wt_))
-                    R ().fail (F.ortho ? "Frustum::after(set(fov) on an orthographic frustum).state" : "Frustum::after(set(fov)).state", in, "a symmetric PERSPECTIVE frustum with the requested field of view", readback (g).str ());
-                else k_t += relations (g, "set(fov)", in);
+                    R ().fail (was_ortho ? "Frustum::after(" + SP + "(fov) on an orthographic frustum).state" : "Frustum::after(" + SP + "(fov)).state", in, "a symmetric PERSPECTIVE frustum with the requested field of view", readback (g).str ());
+                else k_t += relations (g, SP + "(fov)", in);
             }
             // ---- chain
             {
@@ -202,13 +248,14 @@ template <class T> static void history ()
                 else k_t += relations (w, "setOrthographic; modifyNearAndFar; window", in);
             }
         }
-        c_hist += k_h; c_flip_o += k_fo; c_flip_p += k_fp; c_mod += k_m; c_win += k_w; c_fov_o += k_vo; c_fov_p += k_vp; c_chain += k_c; trans += k_t;
+        c_hist += k_h; c_flip_o += k_fo; c_flip_p += k_fp; c_mod += k_m; c_win += k_w; c_fov_o += k_vo; c_fov_p += k_vp; c_exc_o += k_xo; c_exc_p += k_xp; c_chain += k_c; trans += k_t;
     });
     R ().add ("states", c_hist); R ().add ("evaluations", c_hist); R ().add ("transitions", trans);
     R ().cls ("history.setOrthographic(false)-on-orthographic", c_flip_o); R ().cls ("history.setOrthographic(true)-on-perspective", c_flip_p);
     R ().cls ("history.modifyNearAndFar", c_mod); R ().cls ("history.window", c_win);
-    R ().cls ("history.set(fov)-on-orthographic", c_fov_o); R ().cls ("history.set(fov)-on-perspective", c_fov_p); R ().cls ("history.three-operation-chain", c_chain);
-    if (ok) R ().stage_done (std::to_string (FS.size ()) + " frusta x 13 operation histories, state + full relation set (projectionMatrix, planes, depth, screen projection, rays, fov) after each");
+    R ().cls ("history.set(fov)-on-orthographic", c_fov_o); R ().cls ("history.set(fov)-on-perspective", c_fov_p);
+    R ().cls ("history.setExc(fov)-on-orthographic", c_exc_o); R ().cls ("history.setExc(fov)-on-perspective", c_exc_p); R ().cls ("history.three-operation-chain", c_chain);
+    if (ok) R ().stage_done (std::to_string (FS.size ()) + " frusta x 19 operation histories (set(fov) and setExc(fov), fovx / fovy form, directly and after setOrthographic(!kind)), state + full relation set (projectionMatrix, planes, depth, screen projection, rays, fov; the ...Exc spellings of the accessors under the same bounds) after each");
     else R ().stage_partial ("deadline");
 }
 
